@@ -539,6 +539,12 @@ func (fi *funcInfo) lenOf(v ssa.Value) Lin {
 	switch x := v.(type) {
 	case *ssa.UnOp:
 		if x.Op == token.MUL {
+			if al, isAl := x.X.(*ssa.Alloc); isAl {
+				// a local cell assigned exactly once (a variable captured by a closure): its value
+				if s := singleStore(al); s != nil {
+					return fi.lenOf(s)
+				}
+			}
 			if base, f, ok := slotOf(x.X); ok && fi.fields[f] {
 				ep := fi.epoch[x][f]
 				key := fmt.Sprintf("len(%s.%s@%s)", fi.vname(base), f, ep)
